@@ -2,7 +2,7 @@
    distance function, the walk of model/Sorter.v terminates within fuel_bound steps and returns every point
    exactly once (a permutation of the input), starting at the chosen start node. *)
 From Coq Require Import List Bool Arith Lia Permutation.
-From V.model Require Import Sorter.
+From V.model Require Import Hdc Sorter.
 Import ListNotations.
 
 Section SorterProofs.
@@ -283,4 +283,53 @@ Proof.
   apply (sort_points_permutation Z Z.eqb Z.eqb_eq float PrimFloat.ltb infinity np_sum (znodes (length xs))
            (fun v => nth (Z.to_nat v) (adj_table nbr) []) (fd2 xs ys) (znodes_nodup _)).
   intros v w _ Hw. apply znodes_in. rewrite <- Hl. apply (adj_table_in nbr v w Hr Hw).
+Qed.
+
+(* ------------------------------------------------------------------ the coordinates of a single 2-D region *)
+Lemma nth_map_seq {A B} (f : A -> B) : forall l i d d', i < length l -> nth i (map f l) d = f (nth i l d').
+Proof. induction l as [|x l IH]; intros i d d' H; simpl in *; [lia|]. destruct i; auto. apply IH. lia. Qed.
+
+Lemma take_rows_znodes p : take_rows p (znodes (length p)) = p.
+Proof.
+  unfold take_rows, znodes. rewrite map_map.
+  apply (nth_ext _ _ [] []); [rewrite map_length, seq_length; reflexivity|].
+  intros i Hi. rewrite map_length, seq_length in Hi.
+  rewrite (nth_map_seq _ _ i [] 0) by (rewrite seq_length; exact Hi). rewrite seq_nth by exact Hi.
+  simpl. rewrite Nat2Z.id. reflexivity.
+Qed.
+
+Theorem single_region_line sh labels coords nbr pts :
+  map (region_coords nan sh coords) (regions labels 1) = [pts] ->
+  length nbr = length pts -> knn_in_range nbr ->
+  exists line, f_hdc_coordinates 2 sh labels 1 coords nbr = FOne line /\ Permutation line pts.
+Proof.
+  intros Hs Hl Hr. unfold f_hdc_coordinates. rewrite Hs. simpl.
+  destruct (f_sort_points_permutation (column 0 pts) (column 1 pts) nbr true) as [r [Hf Hp]]; auto.
+  { unfold column. rewrite map_length. exact Hl. }
+  rewrite Hf. exists (take_rows pts r). split; [reflexivity|].
+  unfold column in Hp. rewrite map_length in Hp.
+  rewrite <- (take_rows_znodes pts) at 2. unfold take_rows. apply Permutation_map. exact Hp.
+Qed.
+
+Theorem other_regions_unsorted n_dim sh labels n_modes coords nbr :
+  (n_dim <> 2 \/ n_modes <> 1) ->
+  f_hdc_coordinates n_dim sh labels n_modes coords nbr =
+    match map (region_coords nan sh coords) (regions labels n_modes) with
+    | [pts] => FOne pts
+    | sets => FMany sets
+    end.
+Proof.
+  intros H. unfold f_hdc_coordinates, dispatch, regions. rewrite map_map.
+  destruct n_modes as [|[|m]]; simpl.
+  - reflexivity.
+  - destruct H as [H|H]; [|congruence]. destruct (n_dim =? 2) eqn:E; [apply Nat.eqb_eq in E; congruence|reflexivity].
+  - rewrite <- seq_shift. simpl. destruct (seq 1 m); reflexivity.
+Qed.
+
+(* the walk before the repair is not a permutation: two triples of points, 2-NN graph with two components *)
+Theorem unrepaired_sorter_refuted :
+  exists nbr, knn_in_range nbr /\ length nbr = 6 /\ unrepaired_path nbr 0%Z = Some [0; 1; 2]%Z.
+Proof.
+  exists [[1; 2]; [0; 2]; [1; 0]; [4; 5]; [3; 5]; [4; 3]]%Z. split; [|split; [reflexivity|vm_compute; reflexivity]].
+  intros row j Hr Hj. simpl in Hr. simpl. repeat (destruct Hr as [<-|Hr]; [simpl in Hj; lia|]). contradiction.
 Qed.
